@@ -24,7 +24,7 @@ WORK = os.path.join(ROOT, ".work")
 REPLAYS = os.path.join(ROOT, "replays")
 EVIDENCE = os.path.join(ROOT, "evidence")
 ALLOWED_AXIOMS = {"propext", "Classical.choice", "Quot.sound"}
-ENV = dict(os.environ, CARGO_NET_OFFLINE="true")
+ENV = dict(os.environ, CARGO_NET_OFFLINE="true", MALLOC_ARENA_MAX="2")  # glibc: no 64 MiB arena per thread under the address-space cap
 
 TRUSTED_BASE = [
     "Lean 4.33.0 kernel (thorough tier: leanchecker re-check of the theorem modules)",
